@@ -421,8 +421,91 @@ static void c19_value(Case& cs) {
   if (readd_existing) cs.st.cls("readd_existing_value_on_copy");
 }
 
+// ---- C10 (structure level): every serialisable structure returns the number of bytes it appended --------
+template <class F> static void write_and_check(Case& cs, const char* what, const std::string& desc, F writer) {
+  std::string fn = cs.scratch + "/c10struct";
+  int fd = ::open(fn.c_str(), O_WRONLY | O_CREAT | O_TRUNC, 0644);
+  size_t ret;
+  { CdnsEncoder enc(fd, CborOutputCompression::NO_COMPRESSION); ret = writer(enc); }
+  std::string bytes; read_file(fn, bytes);
+  VF_CHECK(ret == bytes.size(), "sig=c10.struct_count." << what << " " << what << "::write returned " << ret << " but appended " << bytes.size() << " bytes (" << hex(bytes, 60) << ") : " << desc);
+  cref::Node n; std::string err;
+  VF_CHECK(cref::parse_all(bytes, n, err), "sig=c10.struct_not_one_item." << what << " " << what << "::write did not append exactly one well-formed data item: " << err << " (" << hex(bytes, 60) << ") : " << desc);
+  cs.st.cls(std::string("struct:") + what);
+}
+static void c10_struct(Case& cs) {
+  Chooser& c = cs.c;
+  gen::Pools pools = gen::make_pools(c);
+  gen::TimeCtx tc = gen::gen_timectx(c);
+  int k = (int)c.range(0, 18);
+  switch (k) {
+    case 0: { Spec p = gen_spec(c, T_CT, c.coin(), 1); write_and_check(cs, "ClassType", p.show(), [&](CdnsEncoder& e) { ClassType x = mk_ct(p); return x.write(e); }); break; }
+    case 1: { Spec p = gen_spec(c, T_SIG, c.coin(), 1); write_and_check(cs, "QueryResponseSignature", p.show(), [&](CdnsEncoder& e) { auto x = mk_sig(p); return x.write(e); }); break; }
+    case 2: { Spec p = gen_spec(c, T_QRR, c.coin(), 1); write_and_check(cs, "Question", p.show(), [&](CdnsEncoder& e) { auto x = mk_q(p); return x.write(e); }); break; }
+    case 3: { Spec p = gen_spec(c, T_RR, c.coin(), 1); write_and_check(cs, "RR", p.show(), [&](CdnsEncoder& e) { auto x = mk_rr(p); return x.write(e); }); break; }
+    case 4: { Spec p = gen_spec(c, T_MMD, c.coin(), 1); if (c.range(0, 3) == 0 && p.v[3] >= 0) p.s = c.bytes_exact(c.range(0, 9000)); write_and_check(cs, "MalformedMessageData", p.show(), [&](CdnsEncoder& e) { auto x = mk_mmd(p); return x.write(e); }); break; }
+    case 5: { Spec p = gen_spec(c, T_QLIST, true, 1); write_and_check(cs, "IndexListItem", p.show(), [&](CdnsEncoder& e) { IndexListItem x; x.list = mk_list(p); return x.write(e); }); break; }
+    case 6: { std::string d = c.bytes(c.coin() ? 40 : 9000); write_and_check(cs, "StringItem", hex(d, 20), [&](CdnsEncoder& e) { StringItem x; x.data = d; return x.write(e); }); break; }
+    case 7: { ResponseProcessingData x; if (c.coin()) x.bailiwick_index = (index_t)c.uint_bits(32); if (c.coin()) x.processing_flags = static_cast<ResponseProcessingFlagsMask>(c.range(0, 255)); write_and_check(cs, "ResponseProcessingData", "", [&](CdnsEncoder& e) { return x.write(e); }); break; }
+    case 8: { QueryResponseExtended x; if (c.coin()) x.question_index = (index_t)c.uint_bits(32); if (c.coin()) x.answer_index = (index_t)c.uint_bits(32); if (c.coin()) x.authority_index = (index_t)c.uint_bits(32); if (c.coin()) x.additional_index = (index_t)c.uint_bits(32); write_and_check(cs, "QueryResponseExtended", "", [&](CdnsEncoder& e) { return x.write(e); }); break; }
+    case 9: { BlockPreamble x; x.earliest_time = Timestamp(c.uint_bits(64), c.uint_bits(64)); if (c.coin()) x.block_parameters_index = (index_t)c.uint_bits(32); write_and_check(cs, "BlockPreamble", "", [&](CdnsEncoder& e) { return x.write(e); }); break; }
+    case 10: { M::StatsM st = gen::gen_stats(c, true); st.present = true; BlockStatistics x = *adapt::lib_stats(st); write_and_check(cs, "BlockStatistics", st.show(), [&](CdnsEncoder& e) { return x.write(e); }); break; }
+    case 11: { Timestamp x(c.uint_bits(64), c.uint_bits(64)); write_and_check(cs, "Timestamp", "", [&](CdnsEncoder& e) { return x.write(e); }); break; }
+    case 12: {
+      AddressEventCount x; x.ae_type = static_cast<AddressEventTypeValues>(c.range(0, 255)); if (c.coin()) x.ae_code = (uint8_t)c.range(0, 255); x.ae_address_index = (index_t)c.uint_bits(32);
+      if (c.coin()) x.ae_transport_flags = static_cast<QueryResponseTransportFlagsMask>(c.range(0, 255)); x.ae_count = c.uint_bits(64);
+      write_and_check(cs, "AddressEventCount", "", [&](CdnsEncoder& e) { return x.write(e); }); break;
+    }
+    case 13: {
+      // QueryResponse / MalformedMessage with time offsets relative to an earliest time
+      uint64_t tps = c.pick<uint64_t>({1, 1000, 1000000, 1000000000});
+      M::Ts t0 = gen::gen_ts(c, tc, tps), t1 = gen::gen_ts(c, tc, tps);
+      if (t1.secs < t0.secs || (t1.secs == t0.secs && t1.ticks < t0.ticks)) std::swap(t0, t1);
+      QueryResponse q;
+      if (c.coin()) q.time_offset = adapt::ts(t1);
+      if (c.coin()) q.client_address_index = (index_t)c.uint_bits(32);
+      if (c.coin()) q.client_port = (uint16_t)c.uint_bits(16);
+      if (c.coin()) q.response_delay = c.int_bits(64);
+      if (c.coin()) q.query_size = c.uint_bits(64);
+      if (c.coin()) q.response_processing_data = ResponseProcessingData();
+      if (c.coin()) { QueryResponseExtended qe; if (c.coin()) qe.answer_index = 3; q.query_extended = qe; }
+      if (c.coin()) q.asn = std::string(c.pick<const char*>({"", "64512", "a-long-asn-text-0123456789"}));
+      if (c.coin()) q.round_trip_time = c.int_bits(64);
+      Timestamp e0 = adapt::ts(t0);
+      write_and_check(cs, "QueryResponse", "", [&](CdnsEncoder& e) { return q.write(e, e0, tps); });
+      MalformedMessage m;
+      if (c.coin()) m.time_offset = adapt::ts(t1);
+      if (c.coin()) m.client_port = (uint16_t)c.uint_bits(16);
+      if (c.coin()) m.message_data_index = (index_t)c.uint_bits(32);
+      write_and_check(cs, "MalformedMessage", "", [&](CdnsEncoder& e) { return m.write(e, e0, tps); });
+      break;
+    }
+    case 14: case 15: {   // preamble parts
+      gen::BpOpts bo;
+      M::BlockP b = gen::gen_bp(c, bo);
+      BlockParameters x = adapt::lib_bp(b);
+      int part = (int)c.range(0, 3);
+      if (part == 0) write_and_check(cs, "BlockParameters", M::dump(b), [&](CdnsEncoder& e) { return x.write(e); });
+      else if (part == 1) write_and_check(cs, "StorageParameters", M::dump(b), [&](CdnsEncoder& e) { return x.storage_parameters.write(e); });
+      else if (part == 2) write_and_check(cs, "StorageHints", M::dump(b), [&](CdnsEncoder& e) { return x.storage_parameters.storage_hints.write(e); });
+      else { CollectionParameters cp = x.collection_parameters ? *x.collection_parameters : CollectionParameters(); write_and_check(cs, "CollectionParameters", M::dump(b), [&](CdnsEncoder& e) { return cp.write(e); }); }
+      break;
+    }
+    default: {   // a whole block built by generated adds
+      BlockParameters bp;
+      CdnsBlock blk(bp, (index_t)c.range(0, 3));
+      unsigned n = (unsigned)c.range(0, 3 + cs.size / 2);
+      for (unsigned i = 0; i < n; i++) { ContentOp o = gen_op(c, pools, tc, i); apply_op(blk, o, nullptr); }
+      write_and_check(cs, "CdnsBlock", std::to_string(n) + " adds", [&](CdnsEncoder& e) { return blk.write(e); });
+      break;
+    }
+  }
+  cs.nontrivial = true;
+}
+
 int main(int argc, char** argv) {
   Registry r;
+  r.add("c10_struct", c10_struct);
   r.add("c11_tables", c11_tables);
   r.add("c19_value", c19_value);
   return harness_main(argc, argv, r);
